@@ -282,6 +282,34 @@ func (x *run) afterStep(rs *repState, s *sim.Step, pre, post *obs, stepErr error
 			}
 		}
 	}
+	// ---- identity chains only grow by appending, ids never change (C09)
+	if x.on("C09") {
+		for id, chain := range pre.Idents {
+			now, ok := post.Idents[id]
+			if !ok || chain == nil {
+				continue
+			}
+			if !isPrefix(chain, now) {
+				x.violate("history-not-append-only", "identity %s on %s: stored chain %s is not a prefix of the later chain %s (step %s)", id[:7], rs.r.Name, sh(chain), sh(now), s.Op)
+			}
+		}
+		irefs, _ := rs.r.Raw.ListRefs("refs/identities/")
+		for _, ref := range irefs {
+			chain, err := model.ReadIdentity(rs.r.Raw, ref)
+			if err != nil || len(chain) == 0 {
+				continue
+			}
+			if chain[0].Id != model.RefId(ref) {
+				x.violate("id-changed", "identity stored under %s but its first version hashes to %s", model.RefId(ref)[:7], chain[0].Id[:7])
+			}
+			o := rs.r.Observer()
+			if gi, err := identity.ReadLocal(o, entity.Id(model.RefId(ref))); err == nil {
+				if string(gi.Id()) != model.RefId(ref) {
+					x.violate("id-changed", "identity %s reads back with id %s", model.RefId(ref)[:7], gi.Id())
+				}
+			}
+		}
+	}
 	// ---- bugs whose head moved in this step
 	var changed []string
 	for id, nb := range post.Bugs {
@@ -661,9 +689,15 @@ func (x *run) checkMerge(rs *repState, remote string, pre *obs, outs []mergeOutc
 		default:
 			expect = "invalid"
 		}
-		if x.on("C02") {
-			x.ntProbes["ident-"+expect] = true
-			x.probe("ident_merge_" + expect)
+		if expect == "invalid" && err == nil {
+			x.probe("ident_merge_diverged")
+			x.ntProbes["ident-diverged"] = true
+		}
+		x.ntProbes["ident-"+expect] = true
+		x.probe("ident_merge_" + expect)
+		if x.on("C09") {
+			x.checkIdentMerge(rs, id, expect, err == nil, loc, rem, now, had, byId["false/"+id], outs == nil, mergeErr)
+			continue
 		}
 		if mergeErr != nil && outs == nil {
 			continue
@@ -728,7 +762,7 @@ func (x *run) checkMerge(rs *repState, remote string, pre *obs, outs []mergeOutc
 		}
 		x.probe("bug_merge_" + expect)
 		x.ntProbes["bug-"+expect] = true
-		if missingAuthor && !x.faults {
+		if missingAuthor && !x.faults && !x.on("C09") {
 			// without faults identities always travel with the bugs
 			x.res.HarnessErr = fmt.Sprintf("author identity missing in a fault-free run (bug %s on %s)", id[:7], rs.r.Name)
 			return
@@ -810,6 +844,54 @@ func openPath(rs *repState) string {
 		return "library, OpenGoGitRepo with clock loaders"
 	}
 	return "command, execenv.LoadRepo"
+}
+
+// checkIdentMerge is the C09 oracle for one identity in one merge.
+func (x *run) checkIdentMerge(rs *repState, id, expect string, decodes bool, loc, rem, now []string, had bool, o *mergeOutcome, oneCall bool, mergeErr error) {
+	status := ""
+	if o != nil {
+		switch o.Status {
+		case entity.MergeStatusNew:
+			status = "new"
+		case entity.MergeStatusInvalid:
+			status = "invalid"
+		case entity.MergeStatusUpdated:
+			status = "updated"
+		case entity.MergeStatusNothing:
+			status = "nothing"
+		default:
+			status = "error"
+		}
+	}
+	switch expect {
+	case "new", "updated":
+		if oneCall && mergeErr != nil {
+			return // the one-call Pull stops at the first refusal; state is judged by the explicit variant
+		}
+		if !eq(now, rem) {
+			x.violate("ff-not-applied", "identity %s on %s: remote %s extends local %s but local is now %s", id[:7], rs.r.Name, sh(rem), sh(loc), sh(now))
+		}
+		if status != "" && status != expect && status != "error" {
+			x.violate("ff-status-wrong", "identity %s on %s: merge reported %q, what happened is %q (local %s -> %s)", id[:7], rs.r.Name, status, expect, sh(loc), sh(now))
+		}
+	case "nothing":
+		if !eq(now, loc) {
+			x.violate("nothing-case-changed-local", "identity %s on %s: remote %s is equal or behind local %s but local became %s", id[:7], rs.r.Name, sh(rem), sh(loc), sh(now))
+		}
+		if status != "" && status != "nothing" && status != "error" {
+			x.violate("ff-status-wrong", "identity %s on %s: merge reported %q although nothing changed", id[:7], rs.r.Name, status)
+		}
+	case "invalid":
+		if had && !eq(now, loc) {
+			x.violate("diverged-changed-local", "identity %s on %s: diverged or invalid remote %s changed local %s into %s", id[:7], rs.r.Name, sh(rem), sh(loc), sh(now))
+		}
+		if !had && now != nil {
+			x.violate("diverged-accepted", "identity %s on %s: undecodable remote identity was accepted", id[:7], rs.r.Name)
+		}
+		if status != "" && status != "invalid" && status != "error" {
+			x.violate("diverged-accepted", "identity %s on %s: merge of diverged histories (local %s, remote %s) reported %q instead of refusing", id[:7], rs.r.Name, sh(loc), sh(rem), status)
+		}
+	}
 }
 
 func isPrefix(p, full []string) bool {
@@ -1206,6 +1288,9 @@ func (e *Engine) Describe(prop string) sim.PropInfo {
 	case "C05":
 		info.Rule = "same plans plus clean/dirty restarts, deletion of clock files while closed, wall-clock jumps, library open path (clock loaders) and command open path (no loaders); non-trivial = a restart, clock deletion or merge happened; distinct = distinct event-log hash"
 		info.Kinds = []string{"edit-time-not-above-seen", "clock-decreased", "clock-decreased-across-restart", "rebuilt-clock-too-low", "clock-unusable", "reopen-failed"}
+	case "C09":
+		info.Rule = "plans biased to identity mutation (name, email, login, avatar, metadata, invalid values) on any replica that knows the identity, with push/pull in between, so that all (common prefix, local suffix, remote suffix) classes arise; each identity merge is judged against the chains decoded by the reference decoder; non-trivial = an identity merge whose expected outcome is updated or refused-diverged happened; distinct = distinct event-log hash"
+		info.Kinds = []string{"id-changed", "history-not-append-only", "ff-not-applied", "ff-status-wrong", "nothing-case-changed-local", "diverged-accepted", "diverged-changed-local", "invalid-identity-accepted"}
 	case "C10":
 		info.Rule = "same plans; every bug read is compiled by git-bug and compared field by field with the reference interpreter applied to the reference-ordered stored operations; non-trivial = a bug with at least 4 operations was interpreted; distinct = distinct event-log hash"
 		info.Kinds = []string{"compile-not-repeatable", "title", "status", "labels", "comments", "actors-participants", "timeline", "metadata-overridden", "op-order", "incremental-differs-from-scratch"}
